@@ -16,7 +16,7 @@ RULE = ("executable programs over the harness native gate set (1-,2-,3-qubit, sy
 ASSUMPTIONS = ["harness native gate set and its matrices (vf/gateset_sig.py)", "reference executor vf/refexec.py",
                "programs rejected by the emulator with JaqalError are judged by C12/C13/C14, not here"]
 TIERS = {"quick": {"shards": 8, "budget_s": 50}, "thorough": {"shards": 16, "budget_s": 420}}
-REQUIRE = {"states-compared": 300, "gate:2q-asym": 50, "gate:3q": 20, "via-alias": 100, "via-macro": 50, "override-used": 30,
+REQUIRE = {"gate-set-variant:B": 100, "gate-set-variant:A": 100, "states-compared": 300, "gate:2q-asym": 50, "gate:3q": 20, "via-alias": 100, "via-macro": 50, "override-used": 30,
            "loop-in-section": 30, "probe:basis": 50}
 ATOL = 1e-9
 
@@ -24,7 +24,8 @@ ATOL = 1e-9
 def judge(case):
     prog = case_prog(case)
     ov = dict(case.get("ov") or {})
-    st, s = X.setup(prog, ov)
+    variant = case.get("variant", "A")
+    st, s = X.setup(prog, ov, variant=variant)
     if st != "ok":
         return st, [], None
     P = s.P
@@ -137,6 +138,7 @@ def process(ctx, case, seen):
     rec.count("states-compared", info.get("compared", 0))
     rec.count("unitary-evaluations-observed", info.get("events", 0))
     rec.count("n=%d" % info["n"])
+    rec.count("gate-set-variant:" + case.get("variant", "A"))
     feature_counts(rec, prog)
     if case.get("ov"):
         rec.count("override-used")
@@ -201,6 +203,7 @@ def shard(ctx):
                 if ov:
                     case["ov"] = ov
         case["npseed"] = rng.randrange(1 << 30)
+        case["variant"] = "B" if rng.random() < 0.35 else "A"
         process(ctx, case, seen)
         if i <= 3:
             rec.sample({"ov": case.get("ov"), "text": sx.to_text(case["prog"])})
